@@ -19,6 +19,7 @@
 (declare-fun sch_mandatory (Iface) Bool)
 (declare-fun sch_min (Iface) Int)
 (declare-fun sch_presence (Iface) Bool)
+(declare-fun sch_card_err (Iface Int) Iface)     ; CheckCardinality(path, n): the error for n entries / values (nil when n is within min- and max-elements); the path only words the message
 ; "something mandatory is missing" relations of the property statement; their defining equations are the axioms
 ; deepMandDef / choiceMissingDef / caseMissingDef in /repo/schema/zz_verif_contracts.go
 (declare-fun deep_mand (Iface) Bool)                              ; below an absent non-presence container
@@ -27,6 +28,7 @@
 ; ---- data nodes as the validator sees them (xnode): schema(), names of children(), path()
 (declare-fun xn_schema (Iface) Iface)
 (declare-fun xn_nchildren (Iface) Int)
+(declare-fun dn_nvalues (Iface) Int)            ; number of values of a leaf / leaf-list data node
 (declare-fun xn_childname (Iface Int) String)   ; YangDataName of the i-th child
 (declare-fun xn_dataname (Iface) String)         ; YangDataName()
 (declare-fun xn_nameset (Iface) (Array String Bool)) ; the set of the children's names (axiom xnNamesetDef)
